@@ -70,16 +70,16 @@ func genCraftedSubsets(r *Rng, tier string) []Case {
 			vv, hs, in := cborBytes(nil), cborBytes(hsha), cborText(integ)
 			bad := cborBytes(r.Bytes(32))
 			values := [][]byte{
-				cborArr(vv, hs, in),                 // what the signer writes
-				cborArr(),                           // no variants-value at all
-				cborArr(vv),                         // variants-value only: no hash pair
-				cborArr(vv, hs),                     // half a pair
-				cborArr(vv, hs, in, hs),             // one and a half pairs
-				cborArr(vv, hs, in, hs, in),         // two pairs (multiple variants are not supported)
-				cborArr(vv, bad, in, hs, in),        // two pairs, the matching one second
+				cborArr(vv, hs, in),                  // what the signer writes
+				cborArr(),                            // no variants-value at all
+				cborArr(vv),                          // variants-value only: no hash pair
+				cborArr(vv, hs),                      // half a pair
+				cborArr(vv, hs, in, hs),              // one and a half pairs
+				cborArr(vv, hs, in, hs, in),          // two pairs (multiple variants are not supported)
+				cborArr(vv, bad, in, hs, in),         // two pairs, the matching one second
 				cborArr(vv, hs, in, bad, in, hs, in), // three pairs
 				cborArr(cborBytes([]byte("Accept;en")), hs, in),
-				cborArr(vv, cborText(string(hsha)), in), // header-sha256 as a text string
+				cborArr(vv, cborText(string(hsha)), in),   // header-sha256 as a text string
 				cborArr(vv, hs, cborBytes([]byte(integ))), // integrity as a byte string
 				cborArr(hs, in, vv),
 				append(canonHead(0xa0, 1), append(vv, hs...)...), // a map where the array is expected
